@@ -113,6 +113,10 @@ exception Faulted of fault
 
 let run toks =
   match toks with
+  (* "big cmp A B" / "big idx A byte" / "big find A hex": lengths of 2^31-1 and more over sparse mappings.  The model
+     is a function on lists of cells and is NOT evaluated there (the theorems quantify over every length); the
+     harness compares the implementation with the ideal sequence's answers (harness/bigmap.h) and prints this: *)
+  | "big" :: _ -> "BIG:ok"
   | "null" :: _ :: [optok] ->
     (match null_self (op_of optok) with
      | Some x -> "NULLSELF | " ^ fst (show_mout x)
